@@ -9,13 +9,17 @@ SPEC = {
     "rule": ("rapid-generated runs of the real engine with 1-3 pools of recording doubles; per run at most one pool gets a fault plan: "
              "provider (before first ammo / after k items / after the engine cancelled it at the very end), aggregator (at start / after "
              "k reports / at the very end), gun factory (call i, call 0 = warm-up probe), Bind, WarmUp, schedule factory (shared or "
-             "per-instance call i), shot panic at shot j, each with a generated delay before the faulty return; caller cancel before "
+             "per-instance call i), shot panic at shot j (panic value: error, string, int, struct, []byte or a runtime error), each with a "
+             "generated delay before the faulty return; provider / aggregator errors come bare, wrapped with %w, wrapped with pkg/errors, "
+             "or as the component's own deadline error (cause context.DeadlineExceeded while the run's contexts are only ever cancelled); caller cancel before "
              "Run or 0-10 ms into it; profiles once/const/60 s-long, bounded/unbounded ammo, 1-4 instances; every case runs 3 times. "
              "Non-trivial = a fault was actually reached or the cancel arrived while Run was in progress; distinct = hash of the case."),
     "floors": {"TestOutcome/fault_provider": 0.05, "TestOutcome/fault_aggregator": 0.05, "TestOutcome/fault_sched": 0.02,
                "TestOutcome/fault_factory": 0.02, "TestOutcome/fault_bind": 0.02, "TestOutcome/fault_warmup": 0.02,
                "TestOutcome/fault_shot_panic": 0.01, "TestOutcome/cancel_in_progress": 0.1, "TestOutcome/pools_gt_1": 0.2,
-               "TestOutcome/provider_fault_at_end": 0.02, "TestOutcome/aggregator_fault_at_end": 0.02},
+               "TestOutcome/provider_fault_at_end": 0.02, "TestOutcome/aggregator_fault_at_end": 0.02,
+               "TestOutcome/own_deadline_error_at_end": 0.015, "TestOutcome/err_shape_pkg_wrapped": 0.02,
+               "TestOutcome/panic_kind_int": 2, "TestOutcome/panic_kind_struct": 2, "TestOutcome/panic_kind_runtime": 2},
     "manifest": {
         "technique": "fault-injection property testing (rapid) of the real engine with recording doubles; outcome oracle from which faults were actually reached",
         "text": ("Generated fault/cancel plans are run against the real engine; the doubles record which injected fault actually returned "
